@@ -56,6 +56,12 @@ def fold(b):
     return bytes(c - 32 if 97 <= c <= 122 else c for c in b)
 
 
+def twin(b):
+    """the key with bit 5 flipped in every byte that is NOT a letter but has a partner 32 away ('_' / DEL, '[' / '{',
+    '@' / '`', bytes >= 0x80): a different key in either case mode, although a branch-free case fold confuses them"""
+    return bytes(c ^ 0x20 if (c in b"_\x7f@`[{]}\\|^~" or c >= 0x80) else c for c in b)
+
+
 def interest(group):
     """how many prefix pairs / distinct lengths a group of colliding keys has"""
     pre = sum(1 for a in group for b in group if a != b and b.startswith(a))
@@ -288,6 +294,12 @@ def run(ctx):
             pool += g[: rng.randint(3, 7)]
         if nc:
             pool += [k.swapcase() for k in pool if k.swapcase() != k][:6]
+        if not binary:
+            tw = [k for k in pool if twin(k) != k]
+            if len(tw) < 3:   # make sure some keys have such bytes
+                tw += [k + rng.choice([b"_", b"[", b"@x", b"\xe9"]) for k in pool[:4]]
+                pool = pool[:14] + tw[-4:]
+            pool = pool[:16] + [twin(k) for k in tw][:4]
         pool = list(dict.fromkeys(pool))[:20]
         if hi % 3 != 1 and b"" not in pool:
             pool[-1] = b""          # the zero-length key takes part in most random histories
